@@ -117,6 +117,33 @@ class PairRunner:
                 out.append((f'{self.prop}/lookup/subscriptions', f'after {R.short(op, 160)}: {problem}'))
         return out
 
+    def readd_findings(self):
+        """A stored object handed to its table once more is ignored: the table (objects and every look-up) stays as it is."""
+        out = []
+        for side, mdib in (('provider', self.world.mdib), ('consumer', self.cmdib)):
+            for tname in ('descriptions', 'states', 'context_states'):
+                table = getattr(mdib, tname)
+                stored = list(table.objects)
+                for obj in stored[:2] + stored[-1:]:
+                    before = [id(o) for o in table.objects]
+                    try:
+                        table.add_object(obj)
+                    except Exception as ex:  # noqa: BLE001
+                        if not R.exc_in_library(ex):
+                            raise
+                        out.append((f'{self.prop}/lookup/{side}/re-add-raises/{tname}',
+                                    f'{side}.{tname}.add_object(<an object that is stored>) raises {type(ex).__name__}: {ex}'[:300]))
+                    if [id(o) for o in table.objects] != before:
+                        out.append((f'{self.prop}/lookup/{side}/re-add-changes-table/{tname}',
+                                    f'{side}.{tname}: handing a stored object to add_object changed the stored objects '
+                                    f'({len(before)} -> {len(table.objects)})'))
+                    for problem in C.audit_table(table, f'{side}.{tname}'):
+                        out.append((f'{self.prop}/lookup/{side}/{problem.split("[")[0].split(":")[0]}',
+                                    f'after re-adding a stored object: {problem}'))
+                    if out:
+                        return out
+        return out
+
     def named_entities(self):
         named, deleted_named, created_named = set(), set(), set()
         for name, value in self.fired:
@@ -218,6 +245,8 @@ def run_program(case, prop=P, stop_at_first=True, check_notifications=True):
                 findings += f
                 if findings and stop_at_first:
                     break
+            if prop == 'C11' and not findings:
+                findings += r.readd_findings()
     finally:
         r.close()
     nontrivial = len(r.kinds_applied) >= 2 and r.special >= 1
@@ -247,7 +276,9 @@ def st_index_biased_ops(inv):
         if short in ('AlertConditionDescriptorContainer', 'LimitAlertConditionDescriptorContainer'):
             opts.append(st.tuples(st.just('descr_update'), st.just(h), st.fixed_dictionaries(
                 {'cls': st.just(c), 'set': st.fixed_dictionaries(
-                    {'Source': st.lists(st.sampled_from(handles[:6]), max_size=3, unique=True)})}), MP.IFACE).map(list))
+                    {'Source': st.one_of(st.lists(st.sampled_from(handles[:6]), max_size=3, unique=True),
+                                         st.lists(st.sampled_from(handles[:2]), min_size=2, max_size=3))})}),  # (repeats)
+                MP.IFACE).map(list))
     return st.one_of(opts) if opts else None
 
 
